@@ -98,7 +98,7 @@ def _run(ctx, spec):
         if getattr(ctx, "only", None):
             denv["VERIF_ONLY"] = ctx.only
         r = vlib.run_driver(ctx, d["pkg"], d["test"], newgo=d.get("newgo", False),
-                            extra=denv, timeout=d.get("timeout", 900),
+                            extra=denv, timeout=(d.get("timeout", 900) if not isinstance(d.get("timeout"), dict) else d["timeout"].get(ctx.tier, 900)),
                             race=d.get("race", False) and ctx.tier == "thorough", tag=str(k))
         driver_walls[d["test"]] = round(r.wall, 1)
         if not r.compiled:
